@@ -650,6 +650,9 @@ def eval_grammar(prop: str, rng: random.Random, gname: str, gtext: str, rules_as
         md = Modes(gtext, passes)
     except Timeout:
         raise
+    except P.Unsupported as e:
+        out["stats"]["skipped:" + str(e)[:40]] += 1       # a resource matter (see Modes), not a load error of the library
+        return
     except Exception as e:  # noqa: BLE001
         out["load_errors"].append((gname, type(e).__name__, str(e)[:200], gtext))
         return
